@@ -178,9 +178,11 @@ def run_direct(ctx, n, tag, pid="C10"):
                     if not any(i is k for k in out[d].individuals) and not any(np.all(np.isclose(s, i.genome)) for s in lev):
                         viol.append({"key": "C10/skip-same-complete", "what": f"SkipSameSprout rejected a candidate of {d.id} that differs from every seed of the target level", "case": meta})
         elif kind in ("far", "nbcfar"):
-            thr = rng.choice([0.0, 0.5, 2.0])
+            thr = rng.choice([0.0, 0.5, 2.0, 3.0])
             only_active = rng.random() < 0.5
-            f = FarEnough(thr, 2) if kind == "far" else NBC_FarEnough(thr, 2, only_active)
+            nord = rng.choice([2, 2, 1, np.inf])         # every norm the filters accept
+            f = FarEnough(thr, nord) if kind == "far" else NBC_FarEnough(thr, nord, only_active)
+            meta["norm_ord"] = str(nord)
             out = f(cands, tree)
             for d in cands:
                 below = list(tree.levels[d.level + 1])
@@ -188,7 +190,7 @@ def run_direct(ctx, n, tag, pid="C10"):
                 t = thr if kind == "far" else thr * cands[d].features.nbc_mean_distance
                 # model: distance keys as numpy computes them, threshold key, the whole level below with its activity flags
                 if before[d] and below:
-                    M = "[" + "; ".join(zl([k_(np.linalg.norm(i.genome - s.centroid, ord=2)) for s in below]) for i in before[d]) + "]"
+                    M = "[" + "; ".join(zl([k_(np.linalg.norm(i.genome - s.centroid, ord=nord)) for s in below]) for i in before[d]) + "]"
                     acts = "[" + "; ".join("true" if s.is_active else "false" for s in below) + "]"
                     oa = "true" if (kind == "far" or only_active) else "false"
                     tk = k_(t)
@@ -197,9 +199,9 @@ def run_direct(ctx, n, tag, pid="C10"):
                     impls.append([j for j, i in enumerate(before[d]) if any(i is k for k in out[d].individuals)])
                     metas.append(dict(meta, deme=d.id, thr=t))
                 for i in before[d]:
-                    far = all(np.linalg.norm(i.genome - s.centroid) > t for s in sibs)
+                    far = all(np.linalg.norm(i.genome - s.centroid, ord=nord) > t for s in sibs)
                     inn = any(i is k for k in out[d].individuals)
-                    margin = min([abs(np.linalg.norm(i.genome - s.centroid) - t) for s in sibs] or [1.0])
+                    margin = min([abs(np.linalg.norm(i.genome - s.centroid, ord=nord) - t) for s in sibs] or [1.0])
                     if far != inn and margin > 1e-9:
                         viol.append({"key": "C09/far-enough" if not far else "C10/only-remove-too-much",
                                      "what": f"{type(f).__name__}({thr}) {'accepted' if inn else 'rejected'} a candidate whose minimal distance to the considered centroids is "
